@@ -61,7 +61,9 @@ Inductive fname :=
   | FSort | FStableSort | FMerge
   | FUnion | FIntersection | FSetDifference | FSubsetp
   | FEvery | FSome | FNotany | FNotevery
-  | FMap | FMapcar | FReduce | FConcatenate.
+  | FMap | FMapcar | FReduce | FConcatenate
+  (* the -if-not functions of the language; slip does not define them *)
+  | FFindIfNot | FPositionIfNot | FCountIfNot | FRemoveIfNot | FDeleteIfNot | FSubstituteIfNot | FNsubstituteIfNot.
 
 (* two-argument functions handed to reduce / map: + - max min, first and second projection *)
 Inductive binop := BAdd | BSub | BMax | BMin | BFirst | BSecond.
